@@ -51,34 +51,24 @@ def primDenote (p : PTy) (ty l : Nat) (payload : Bytes) : Option Val :=
   | .text => some (.text payload)
 
 def specPrim (tag : Nat) (p : PTy) (r : Bytes) : Option (Val × Bytes) :=
-  match cutItem r with
-  | none => none
-  | some (t, ty, l, payload, rest) =>
-    if tagOk tag t then (primDenote p ty l payload).map (·, rest) else none
+  (cutItem r).bind fun (t, ty, l, payload, rest) =>
+    if tagOk tag t then (primDenote p ty l payload).bind fun v => some (v, rest) else none
 
 /-- an item matched by a `skip` field: any type, opaque payload, must fit -/
 def specSkip (tag : Nat) (r : Bytes) : Option Bytes :=
-  match cutItem r with
-  | none => none
-  | some (t, _, _, _, rest) => if tagOk tag t then some rest else none
+  (cutItem r).bind fun (t, _, _, _, rest) => if tagOk tag t then some rest else none
 
 /-- a sequence: the maximal run of items carrying `ftag`. `fuel` bounds the iterations structurally
     (every element is at least 8 bytes long, so `r.length` suffices). -/
 def specMany (elem : Bytes → Option (Val × Bytes)) (ftag : Nat) : Nat → Bytes → Option (List Val × Bytes)
   | 0, _ => none
   | fuel + 1, r =>
-    match elem r with
-    | none => none
-    | some (v, rest) =>
+    (elem r).bind fun (v, rest) =>
       if rest = [] then some ([v], rest)
-      else match headTag rest with
-        | none => none
-        | some t =>
-          if t = 0 then none
-          else if t ≠ ftag then some ([v], rest)
-          else match specMany elem ftag fuel rest with
-            | none => none
-            | some (vs, rest') => some (v :: vs, rest')
+      else (headTag rest).bind fun t =>
+        if t = 0 then none
+        else if t ≠ ftag then some ([v], rest)
+        else (specMany elem ftag fuel rest).bind fun (vs, rest') => some (v :: vs, rest')
 
 mutual
   def specValue (tag : Nat) (prev : List FV) : FTy → Bytes → Option (Val × Bytes)
@@ -105,39 +95,29 @@ mutual
   /-- a structure item: header with the expected tag and type 1, payload that fits, fields matching the whole payload -/
   def specStruct (tag : Nat) : SD → Bytes → Option (Val × Bytes)
     | .mk _ _ fields, r =>
-      match cutStruct r with
-      | none => none
-      | some (t, ty, _, payload, rest) =>
+      (cutStruct r).bind fun (t, ty, _, payload, rest) =>
         if tagOk tag t ∧ ty = structCode then
-          match specFields fields payload [] with
-          | some (vals, []) => some (.struct vals, rest)
-          | some (_, _ :: _) => none          -- something unaccounted-for remains inside the structure
-          | none => none
+          (specFields fields payload []).bind fun (vals, left) =>
+            -- nothing unaccounted-for may remain inside the structure
+            if left = [] then some (.struct vals, rest) else none
         else none
   def specFields : List Fld → Bytes → List FV → Option (List FV × Bytes)
     | [], r, _ => some ([], r)
     | f :: fs, r, prev =>
-      match specField f r prev with
-      | none => none
-      | some (fv, r') =>
-        match specFields fs r' (prev ++ [fv]) with
-        | none => none
-        | some (rest, r'') => some (fv :: rest, r'')
+      (specField f r prev).bind fun (fv, r') =>
+      (specFields fs r' (prev ++ [fv])).bind fun (rest, r'') =>
+      some (fv :: rest, r'')
   def specField : Fld → Bytes → List FV → Option (FV × Bytes)
     | .mk name tag required slice skip ty, r, prev =>
       if r = [] then
         (if required then none else some (zeroFld (.mk name tag required slice skip ty), r))
-      else match headTag r with
-        | none => none
-        | some t =>
+      else (headTag r).bind fun t =>
           if t = 0 then none                  -- no KMIP tag is zero
           else if required = false ∧ t ≠ tag ∧ tag ≠ anyTag then some (zeroFld (.mk name tag required slice skip ty), r)
-          else if skip then (specSkip tag r).map (fun rest => (.skip false, rest))
+          else if skip then (specSkip tag r).bind fun rest => some (.skip false, rest)
           else if slice then
-            (specMany (specValue tag prev ty) tag r.length r).map (fun (vs, rest) => (.many vs, rest))
-          else match specValue tag prev ty r with
-            | none => none
-            | some (v, rest) =>
+            (specMany (specValue tag prev ty) tag r.length r).bind fun (vs, rest) => some (.many vs, rest)
+          else (specValue tag prev ty r).bind fun (v, rest) =>
               match ty with
               | .dyn _ _ => some (.dyn (.val false (dynTyOf prev ty) v), rest)
               | .prim _ => some (.one v, rest)
